@@ -12,6 +12,11 @@ from rtc import gen, oracle, driver     # noqa: E402
 
 
 def case_fn(case):
+    if case.get("kind") == "stale_edge_operator":
+        return stale_edge_operator_case(case)
+    if case.get("kind") == "yaml_between":
+        from checks import c07 as _c07
+        return _c07.yaml_between_compiles_case(case)
     if case.get("kind") == "derived_edge":
         from checks import c07 as _c07
         return _c07.derived_edge_case(case)
@@ -25,6 +30,31 @@ def case_fn(case):
         return dict(status="violated", fails=[dict(clause="get_run_func returns a function for a well-formed model",
                                                    observed=f"{type(exn).__name__}: {exn}")])
     fails = oracle.check_vector_field(case["model"], comp, rng, n_states=3, n_param_draws=1, vectorized=case["vec"])
+    return dict(status="violated" if fails else "ok", fails=fails[:2])
+
+
+def stale_edge_operator_case(case):
+    """Two models in one process whose EDGE operators share a name but not the equation; the first is compiled with clear=True
+    (the reset the API offers), then the second: it computes its own equations."""
+    import json
+    from rtc import mdl
+    m1 = case["model"]
+    m2 = json.loads(json.dumps(m1))
+    eop = m2["edge_ops"]["eop"] if isinstance(m2.get("edge_ops"), dict) else None
+    for name, op in (m2["edge_ops"].items() if isinstance(m2.get("edge_ops"), dict) else []):
+        # s_out = gain * tanh(pre)   ->   s_out = gain * pre / (1 + pre*pre),  gain 1.7 -> 3.0
+        op["eqs"] = [["s_out", "alg", ["/", ["*", ["var", "gain"], ["var", "pre"]], ["+", ["num", 1.0], ["*", ["var", "pre"], ["var", "pre"]]]]]]
+        op["vars"]["gain"] = ["const", 3.0]
+    rng = np.random.default_rng(case["seed"])
+    fails = []
+    try:
+        comp1 = oracle.compile_model(m1, vectorize=case["vec"], clear=True)
+        comp2 = oracle.compile_model(m2, vectorize=case["vec"], clear=True)
+    except Exception as exn:
+        return dict(status="violated", fails=[dict(clause="two models with an equally named edge operator compile one after the other", observed=f"{type(exn).__name__}: {exn}")])
+    for f in oracle.check_vector_field(m2, comp2, rng, n_states=2, n_param_draws=0, vectorized=case["vec"]):
+        f["clause"] = "second model after get_run_func(clear=True) of a model with an equally named edge operator: " + f["clause"]
+        fails.append(f)
     return dict(status="violated" if fails else "ok", fails=fails[:2])
 
 
@@ -43,6 +73,11 @@ def families(tier, seed):
     for which in ("base", "variant"):
         cases.append(dict(tag=f"U27-edge-override-on-derived-circuit/{which}", features=dict(derived=True, which=which), kind="derived_edge", model=m_e,
                           which=which, vec=False, seed=seed))
+    v5 = {t: mm for t, f, mm in gen.c04_extra()}["V5-edge-template-three-groups"]
+    for vec in (False, True):
+        cases.append(dict(tag="F11-equally-named-edge-operator-after-clear", features=dict(edge_template=True, sequence2=True), kind="stale_edge_operator",
+                          model=v5, vec=vec, seed=seed))
+        cases.append(dict(tag="U29-to_yaml-between-two-compilations", features=dict(yaml_between=True), kind="yaml_between", vec=vec))
     if tier == "thorough":
         for tag, feats, model in gen.c01_structured():
             cases.append(dict(tag=tag + "/style1", features=dict(feats, style=1), model=model, vec=False, seed=seed + 2, style=1))
@@ -53,6 +88,9 @@ def main():
     chk = Check("C01", "other")
     # deductive part: the state-layout loop of ComputeGraph.to_func (bounded stand-in if undecided: the layout clause below)
     chk.run_contracts("contracts.c01", names=["ComputeGraph.to_func@state-layout"], fallback={"*": lambda: []})
+    # "the returned argument values are the declared (or overridden) values of the variables they are named after": the functions that
+    # carry declared values and overrides into the compilation neither write into shared templates nor let one call's values reach a cache
+    chk.run_frames()
     cases = families(chk.tier, chk.seed)
     results = driver.run_family(
         chk, "get_run_func-vs-spec_rhs", cases, case_fn, site="C01/get_run_func",
@@ -62,8 +100,8 @@ def main():
              "0-7 edges incl. repeats/self-connections), each with vectorize off and on; per case 3 random states x 2 "
              "parameter draws, clauses: distinct layout, declared initial/parameter values, derivative == spec_rhs "
              "(rtol 1e-8); distinct = distinct (model, vectorize) with >= 1 edge or >= 2 operators",
-        nontrivial=lambda c: bool(c["model"].get("edges")) or any(len(n["ops"]) > 1 for n in c["model"].get("nodes", {}).values()),
-        sample_of=lambda c: dict(tag=c["tag"], vec=c["vec"], model=c["model"]))
+        nontrivial=lambda c: "model" not in c or bool(c["model"].get("edges")) or any(len(n["ops"]) > 1 for n in c["model"].get("nodes", {}).values()),
+        sample_of=lambda c: dict(tag=c["tag"], vec=c["vec"], model=c.get("model")))
     driver.run_sequences(chk, "get_run_func-vs-spec_rhs-in-sequence", cases, results, case_fn, site="C01/get_run_func",
                          limit=30 if chk.tier == "quick" else 200, seed=chk.seed)
     rc = chk.finish(
